@@ -427,6 +427,38 @@ theorem url_decls : tsEnvAll rqUrl =
 theorem path_arg : handlerArgNoBody getReq [("user_id".toList, "7".toList), ("on".toList, "true".toList)] [] =
     Json.obj [("userId".toList, .str "7".toList), ("on".toList, .str "true".toList)] := rfl
 
+/-! ### one route with path variables AND query parameters (loads since /repo 41e5e05) -/
+
+def tenantF : Field := { name := "tenant".toList, kind := .string }
+def bigNumF : Field :=
+  { name := "big_num".toList, kind := .uint64, int64Enc := 2, query := some ("big_num".toList, false) }
+def bigPlainF : Field := { name := "big_plain".toList, kind := .int64, query := some ("big_plain".toList, false) }
+def flagQF : Field := { name := "flag_q".toList, kind := .bool, query := some ("flag_q_param".toList, false) }
+def shadeQF : Field :=
+  { name := "shade_q".toList, kind := .enum, typeName := ".t.Shade".toList, query := some ("shade_q".toList, false) }
+/-- request of `GET /t/{tenant}?big_num=…&big_plain=…&flag_q_param=…&shade_q=…` -/
+def mixReq : Message :=
+  { fullName := ".t.MixReq".toList, name := "MixReq".toList, fields := [tenantF, bigNumF, bigPlainF, flagQF, shadeQF] }
+/-- the same with an int32 path variable -/
+def mixReqN : Message :=
+  { fullName := ".t.MixReqN".toList, name := "MixReqN".toList, fields := [userIdF, bigNumF, flagQF] }
+def rqMix : Request :=
+  { files := [{ name := "t.proto".toList, messages := [mixReq, mixReqN], enums := [shadeEnum] }] }
+
+theorem mix_decls : tsEnvAll rqMix =
+    [("MixReq".toList, .obj [("tenant".toList, false, .str), ("bigNum".toList, false, .num),
+        ("bigPlain".toList, false, .str), ("flagQ".toList, false, .bool), ("shadeQ".toList, false, .ref "Shade".toList)]),
+     ("MixReqN".toList, .obj [("userId".toList, false, .num), ("bigNum".toList, false, .num), ("flagQ".toList, false, .bool)]),
+     ("Shade".toList, .union [.lit "SHADE_UNSPECIFIED".toList, .lit "SHADE_DARK".toList])] := rfl
+
+/-- query conversions first (`Number` rounds 2^53+1 to the nearest double), then the path merge. -/
+theorem mix_arg :
+    handlerArgNoBody mixReq [("tenant".toList, "acme".toList)]
+      [("big_num".toList, "9007199254740993".toList), ("big_plain".toList, "9007199254740993".toList),
+       ("flag_q_param".toList, "true".toList), ("shade_q".toList, "SHADE_DARK".toList)] =
+    Json.obj [("bigNum".toList, .num (.int 9007199254740992)), ("bigPlain".toList, .str "9007199254740993".toList),
+      ("flagQ".toList, .bool true), ("shadeQ".toList, .str "SHADE_DARK".toList), ("tenant".toList, .str "acme".toList)] := rfl
+
 /-- the nested-`int64` witness value is well-typed (used by `C07.not_full`). -/
 theorem wt_nested : WtMsg WireEnc.Witness.rqNested 6 WireEnc.Witness.parentMsg WireEnc.Witness.vNested := by
   refine WtMsg.mk ?_
